@@ -1,6 +1,7 @@
 """C16 (point-in-polygon exact) and C04 (polygon-constrained fields): Polygon.tla + replay + random real polygons."""
 from __future__ import annotations
 
+import json
 import math
 import random
 from fractions import Fraction
@@ -10,12 +11,15 @@ from .tla import tla, tla_set
 
 SCALE = 5.0  # metres per doubled-lattice unit in the replay (keeps every off-edge lattice point outside the tolerance band)
 
-NOGOS = [
-    [],
-    [[2, 2], [4, 2], [4, 4], [2, 4]],
-    [[0, 0], [2, 0], [0, 2]],
-    [[2, 2], [6, 4], [2, 6]],
-]
+_ZA = [[2, 2], [4, 2], [4, 4], [2, 4]]
+_ZB = [[0, 0], [2, 0], [0, 2]]
+_ZC = [[2, 2], [6, 4], [2, 6]]
+_ZD = [[4, 0], [6, 0], [6, 2]]
+# LISTS of no-go zones as they are handed to remove_cutout in one call: none, one, and several in different orders (a grid point on
+# the boundary of a zone that is NOT the last of the list is the interesting case)
+NOGOS = [[], [_ZA], [_ZB], [_ZC], [_ZA, _ZB], [_ZB, _ZA], [_ZA, _ZD, _ZB], [_ZC, _ZD]]
+# further property outlines given after the built one
+EXTRAS = [[], [[[4, 4], [6, 4], [6, 6], [4, 6]]]]
 
 
 # ---- exact classifier: Python transliteration of Polygon.tla Class (checked against TLC's tables in the replay) ----
@@ -60,10 +64,11 @@ def metric_excess(q, p):
     return best
 
 
-def run_model(chk: Check, maxv: int, nogos, invs, emit: bool):
+def run_model(chk: Check, maxv: int, nogos, invs, emit: bool, extras=([],)):
     mod = f"""---- MODULE MC_Polygon ----
 EXTENDS Polygon
-c_NoGos == {tla_set([[tuple(v) for v in g] for g in nogos])}
+c_NoGos == {tla_set([[[tuple(v) for v in g] for g in zones] for zones in nogos])}
+c_Extras == {tla_set([[[tuple(v) for v in g] for g in outlines] for outlines in extras])}
 ====
 """
     cfg = f"""INIT Init
@@ -73,6 +78,7 @@ CONSTANTS
  L = 4
  MaxV = {maxv}
  NoGos <- c_NoGos
+ Extras <- c_Extras
 """ + "".join(f"INVARIANT {i}\n" for i in invs) + ("INVARIANT Emit\n" if emit else "")
     res = run_tlc("MC_Polygon", cfg, extra_modules={"MC_Polygon.tla": mod}, coverage=not emit, workers=1 if emit else "auto",
                   want_prints=emit, timeout=6000)
@@ -239,13 +245,15 @@ def _replay_c04(item):
     from ghedesigner.feature_recognition import remove_cutout  # noqa: PLC0415
 
     poly, nogo, keep = item["poly"], item["nogo"], tab(item["keep"])
+    extra = item.get("extra") or []
     pts = [(x * SCALE, y * SCALE) for x in range(7) for y in range(7)]
     bad = []
     for var in _variants(poly)[:: max(1, len(poly) // 2)]:
         contour = [[v[0] * SCALE, v[1] * SCALE] for v in var]
-        kept = remove_cutout(pts, [contour], remove_inside=False, keep_contour=True)
+        outlines = [contour] + [[[v[0] * SCALE, v[1] * SCALE] for v in o] for o in extra]
+        kept = remove_cutout(pts, outlines, remove_inside=False, keep_contour=True)
         if nogo and kept:
-            kept = remove_cutout(kept, [[[v[0] * SCALE, v[1] * SCALE] for v in nogo]], remove_inside=True, keep_contour=False)
+            kept = remove_cutout(kept, [[[v[0] * SCALE, v[1] * SCALE] for v in z] for z in nogo], remove_inside=True, keep_contour=False)
         ks = set(kept)
         for x in range(7):
             for y in range(7):
@@ -355,14 +363,14 @@ def run_c04() -> int:
     chk = Check("C04")
     t = tier()
     maxv = 4 if t == "quick" else 5
-    chk.rule = ("TLC builds every simple property polygon with 3..%d vertices on the 4x4 lattice, pairs it with each of %d no-go polygons, and computes the "
+    chk.rule = ("TLC builds every simple property polygon with 3..%d vertices on the 4x4 lattice, pairs it with each of %d LISTS of no-go zones (none, one, several in different orders) and an optional second outline, and computes the "
                 "kept set of all 49 half-lattice points; remove_cutout is replayed on the same cases; polygonal_land_constraint runs end to end on random "
                 "real-valued outlines and is judged with the exact rational classifier" % (maxv, len(NOGOS)))
     chk.trusted = ["exact rational classifier harness/p_polygon.exact_class (bound to Polygon.tla by the C16 replay)", "TLC 1.8.0"]
-    _, found = run_model(chk, maxv, NOGOS, ["KeptInsideProperty", "NothingClearDropped"], emit=False)
+    _, found = run_model(chk, maxv, NOGOS, ["KeptInsideProperty", "NothingClearDropped"], emit=False, extras=EXTRAS)
     for f in found:
         chk.violation(f"Polygon.tla invariant {f['invariant']} violated", f)
-    res, _ = run_model(chk, maxv, NOGOS, [], emit=True)
+    res, _ = run_model(chk, maxv, NOGOS, [], emit=True, extras=EXTRAS)
     items = res.prints
     rnd = random.Random(chk.seed)
     cap = 4000 if t == "quick" else 40000
@@ -373,7 +381,7 @@ def run_c04() -> int:
             chk.violation(f"remove_cutout keeps/drops {b['point']} against the model (property {b['property']}, no-go {b['nogo']})", b)
     chk.traces += len(items)
     chk.evaluations += len(items) * 49
-    chk.nontrivial = {(tuple(map(tuple, i["poly"])), tuple(map(tuple, i["nogo"]))) for i in items}
+    chk.nontrivial = {(tuple(map(tuple, i["poly"])), json.dumps(i["nogo"]), json.dumps(i.get("extra"))) for i in items}
     chk.sample({"property": items[0]["poly"], "nogo": items[0]["nogo"], "keep_table": tab(items[0]["keep"])})
     seeds = [chk.seed * 977 + i for i in range(16 if t == "quick" else 320)]
     agg = {"fields": 0, "points": 0, "dropped_clear": 0, "lists": 0}
